@@ -19,6 +19,7 @@ func init() {
 		ID:    "C08",
 		Level: "exploration",
 		Rule: "function shapes: all sequences of length<=3 (quick) / 4 (thorough) plus PRNG longer ones over {named/unnamed block start, named/unnamed add, store, fence, void call, non-void call, void/non-void invoke, void/non-void callbr, invoke unwinding to an unnamed catchswitch} with callees spelled in the short form or with their full function type (void (), void (...), i32 ()) and a table of the addresses of all numbered non-entry blocks in front of the functions, crossed with 0-2 named/unnamed parameters, each emitted with all unnamed values numbered explicitly, all implicitly, and mixed; the numbering is computed by the monitor's own model of LLVM's rule and validated by llvm-as on the explicit form. Module shapes: all sequences of length<=3 / 4 plus PRNG longer ones over named/unnamed {global, alias, ifunc, declaration, definition}. For each shape LLVM accepts: the library's parser must accept it, every %N/@N must be bound to the object at the position the model says (each unnamed value is stored to / listed in a sink in definition order), IDs must equal the model's, numbering again must change nothing, String() must not fail, LLVM must accept the printed text and read it as the same module. " +
+			"Further cases: parameter lists with named parameters among explicitly numbered ones (bound values checked by lli); print / edit / print of a single function; the empty quoted name in every position next to an explicitly numbered twin; attribute-group and metadata definitions between unnamed globals; explicitly numbered results of invoke, callbr and catchswitch, right (accepted, bound by position) and wrong (rejected). " +
 			"non-trivial = a shape with at least one unnamed value; distinct by (shape, emission mode)",
 		Gen:           genC08,
 		MinNontrivial: 1000,
@@ -344,6 +345,7 @@ func genC08(ctx *fw.Ctx) []fw.Case {
 	cases = append(cases, fw.Case{ID: "api/numbers-used-outside-their-function", Run: c08APIOutsideUses})
 	cases = append(cases, fw.Case{ID: "params/named-among-numbered", Run: c08ParamSpellings})
 	cases = append(cases, fw.Case{ID: "spellings/empty-names-and-interleaved-definitions", Run: c08OtherSpellings})
+	cases = append(cases, fw.Case{ID: "numbers-on-terminator-results", Run: c08TerminatorNumbers})
 	cases = append(cases, fw.Case{ID: "api/function-printed-edited-printed", Run: c08APIFuncPrintEditPrint})
 	return cases
 }
@@ -1079,5 +1081,43 @@ func c08OtherSpellings(r *fw.Rec) {
 		}
 		r.Nontrivial(xa)
 		r.Tally("spellings", "empty-names-and-interleaved-definitions:ok")
+	}
+}
+
+// c08TerminatorNumbers: the results of invoke, callbr and catchswitch take
+// numbers like instruction results. Written with the right explicit number the
+// module is accepted and every use is bound to that result; written with
+// another number (what LLVM rejects) it must not be accepted with the number
+// silently changed, which would bind later uses of the written number elsewhere.
+func c08TerminatorNumbers(r *fw.Rec) {
+	tmpl := map[string]string{
+		"callbr":      "define i32 @f(i32 %x) {\nentry:\n  %0 = add i32 %x, 1\n  RES = callbr i32 asm \"\", \"=r,r,X\"(i32 %x, i8* blockaddress(@f, %ind)) to label %ok [label %ind]\nok:\n  %2 = add i32 %1, %0\n  ret i32 %2\nind:\n  ret i32 0\n}\n",
+		"invoke":      "declare i32 @pers(...)\ndeclare i32 @g()\ndefine i32 @f() personality i32 (...)* @pers {\nentry:\n  %0 = add i32 1, 2\n  RES = invoke i32 @g() to label %ok unwind label %lp\nok:\n  %2 = add i32 %1, %0\n  ret i32 %2\nlp:\n  %l = landingpad i32 cleanup\n  ret i32 0\n}\n",
+		"catchswitch": "declare i32 @pers(...)\ndefine void @f() personality i32 (...)* @pers {\nentry:\n  %0 = add i32 1, 2\n  invoke void @f() to label %ok unwind label %cs\nok:\n  ret void\ncs:\n  RES = catchswitch within none [label %h] unwind to caller\nh:\n  %2 = catchpad within %1 []\n  catchret from %2 to label %ok\n}\n",
+	}
+	for _, kind := range fw.SortedKeys(tmpl) {
+		for _, written := range []string{"%1", "%0", "%2", "%7"} {
+			x := strings.Replace(tmpl[kind], "RES", written, 1)
+			okl, _, err := llvmref.Accepts(x)
+			if err != nil {
+				r.Inconclusive("llvm tool failure")
+				continue
+			}
+			r.Eval(1)
+			m, perr, pmsg := parseGuard("c08-term-numbers", x)
+			key := fmt.Sprintf("terminator-numbers/%s/written=%s", kind, written)
+			switch {
+			case pmsg != "":
+				r.Violate(fw.Violation{Key: key, Input: x, What: "the parser panics: " + firstLine(pmsg)})
+			case okl && perr != nil:
+				r.Violate(fw.Violation{Key: key, Input: x, What: "a numbering LLVM accepts is rejected: " + firstLine(perr.Error())})
+			case !okl && perr == nil && m != nil:
+				y, _ := printGuard(m)
+				r.Violate(fw.Violation{Key: key, Input: x, What: fmt.Sprintf("the result of a %s written %s (LLVM: expected to be numbered %%1) is accepted and renumbered silently: uses of the written number are bound elsewhere", kind, written), Observed: y})
+			default:
+				r.Nontrivial(key)
+				r.Tally("terminator_numbers", fmt.Sprintf("%s:llvm-accepts=%v", kind, okl))
+			}
+		}
 	}
 }
